@@ -24,64 +24,143 @@ fn logging_write_register(_ay: &mut AymPrecise, address: u8, value: u8) {
     }
 }
 
-fn any_port(a15: bool, a14: bool) -> u16 {
-    let p: u16 = kani::any();
-    // A1 = 0, odd (not the ULA), A15/A14 as requested
-    kani::assume(p & 0x0002 == 0 && p & 1 == 1 && (p & 0x8000 != 0) == a15 && (p & 0x4000 != 0) == a14);
-    p
-}
+// ---- (a) the chip glue alone --------------------------------------------------------------------
 
 // @harness
-// @prop C18 C07
+// @prop C18
 // @tier quick
 // @features sound,ay
-// @timeout 1500
-// @fn ZXController::write_io (AY select and data arms); ZXController::read_io (AY arm); select_ay_reg; write_ay_port; read_ay_port; ZXAyChip::select_reg; ZXAyChip::write; ZXAyChip::read; ZXAyChip::new
-// @sym machine, three (register number, value) writes and a final register selection, all through fully symbolic port addresses of the decode classes A15=A14=1,A1=0 (select/read-back) and A15=1,A14=0,A1=0 (data); frame time fixed (1000)
-// @assert reading the AY data port returns the value last written to the selected register, register numbers taken modulo 16 (never-written registers read 0); every data write reaches the sound generator as (register number mod 16, value) in order; AY port cycles never touch the border colour or the paging latch
+// @timeout 900
+// @fn ZXAyChip::new; ZXAyChip::select_reg; ZXAyChip::write; ZXAyChip::read
+// @sym three (register number, value) writes and a final register selection, all bytes arbitrary
+// @assert reading back returns the value last written to the selected register, register numbers taken modulo 16 (never-written registers read 0); every write reaches the sound generator as (register number mod 16, value), in order
 // @bound 3 register writes + 1 read-back
-// @stub libm::sqrt -> identity (unsupported SIMD intrinsic); <AymPrecise as AymBackend>::write_register -> logger (generator decode is c18_register_decode in the aym crate); ZXMixer::process -> no-op; ZXMixer::new_frame -> no-op; ZXScreen::process_clocks -> no-op
+// @stub libm::sqrt -> identity (unsupported SIMD intrinsic); <AymPrecise as AymBackend>::write_register -> logger (generator decode is c18_register_decode in the aym crate)
 // @replay solver-only
 #[kani::proof]
 #[kani::unwind(17)]
 #[kani::stub(libm::sqrt, sqrt_identity)]
 #[kani::stub(<aym::AymPrecise as aym::AymBackend>::write_register, logging_write_register)]
-#[kani::stub(crate::zx::sound::mixer::ZXMixer::process, mh::noop_process)]
-#[kani::stub(crate::zx::sound::mixer::ZXMixer::new_frame, mh::noop_new_frame)]
-#[kani::stub(crate::zx::video::screen::ZXScreen::process_clocks, ch::noop_screen_clocks)]
-fn c18_ay_port_readback() {
-    let m = crate::emulator::verif_hooks::any_machine();
-    let mut c = ch::mk_controller(m, FbCtx { wx: 0, wy: 0 }, false, false);
-    // port timing is C04's subject: start at a literal frame time so that no frame end can fall into
-    // the eight port cycles (every frame end would drag the video/audio frame switch into the query)
-    c.frame_clocks = 1000;
+fn c18_ay_chip_readback() {
+    let mut chip = ZXAyChip::new(44100, ZXAYMode::ABC);
     unsafe {
         GEN_LOG_LEN = 0;
     }
     let mut model = [0u8; 16];
-    let mut i = 0;
     let mut sent = [(0u8, 0u8); 3];
+    let mut i = 0;
     while i < 3 {
         let (reg, val): (u8, u8) = (kani::any(), kani::any());
-        c.write_io(any_port(true, true), reg);
-        c.write_io(any_port(true, false), val);
+        chip.select_reg(reg);
+        chip.write(val);
         model[(reg & 15) as usize] = val;
         sent[i] = (reg & 15, val);
         i += 1;
     }
     let r: u8 = kani::any();
-    c.write_io(any_port(true, true), r);
-    let got = c.read_io(any_port(true, true));
-    kani::assert(got == model[(r & 15) as usize], "c18.ports.readback_is_last_value_written_mod_16");
+    chip.select_reg(r);
+    kani::assert(chip.read() == model[(r & 15) as usize], "c18.ports.readback_is_last_value_written_mod_16");
     unsafe {
         kani::assert(GEN_LOG_LEN == 3, "c18.ports.every_data_write_reaches_generator");
         kani::assert(GEN_LOG[0] == sent[0] && GEN_LOG[1] == sent[1] && GEN_LOG[2] == sent[2], "c18.ports.generator_gets_register_and_value");
     }
-    kani::assert(u8::from(c.border_color) == 0, "c07.ay.border_untouched");
-    if m == crate::zx::machine::ZXMachine::Sinclair128K {
-        kani::assert(c.read_7ffd() == 0, "c07.ay.latch_untouched");
-    }
-    kani::cover!(r & 0xF0 != 0 && got != 0, "register number wraps modulo 16");
+    kani::cover!(r & 0xF0 != 0 && chip.read() != 0, "register number wraps modulo 16");
     kani::cover!(sent[0].0 == sent[2].0 && sent[0].1 != sent[2].1 && r & 15 == sent[0].0, "overwritten register");
     kani::cover!(sent[1].0 == 14, "I/O port register");
+}
+
+// ---- (b) the controller's decoding of the AY ports ----------------------------------------------
+
+static mut CHIP_CALLS: [(u8, u8); 4] = [(0, 0); 4]; // (1 = select, 2 = write, 3 = read; argument)
+static mut CHIP_NCALLS: usize = 0;
+static mut CHIP_READ_ANSWER: u8 = 0;
+
+fn chip_call(kind: u8, arg: u8) {
+    unsafe {
+        if CHIP_NCALLS < 4 {
+            CHIP_CALLS[CHIP_NCALLS] = (kind, arg);
+        }
+        CHIP_NCALLS += 1;
+    }
+}
+fn rec_select(_c: &mut ZXAyChip, reg: u8) {
+    chip_call(1, reg)
+}
+fn rec_write(_c: &mut ZXAyChip, data: u8) {
+    chip_call(2, data)
+}
+fn rec_read(_c: &ZXAyChip) -> u8 {
+    chip_call(3, 0);
+    unsafe { CHIP_READ_ANSWER }
+}
+
+// @harness
+// @prop C07 C18
+// @tier quick
+// @features sound,ay
+// @timeout 1200
+// @fn ZXController::write_io (AY select and data arms); ZXController::read_io (AY arm); select_ay_reg; write_ay_port; read_ay_port
+// @sym machine, 16-bit port (all 65536), data, the byte the chip would answer; no joystick/mouse/extender; frame time fixed
+// @assert an OUT to a port with A15=A14=1, A1=0 (and A0=1, so the ULA is not selected too) reaches the AY register-select and nothing else; A15=1, A14=0, A1=0 reaches the AY data write and nothing else; any other odd port reaches neither; an IN from the select/read-back address returns the chip's answer and from the data address does not; AY cycles never touch border or paging latch
+// @assume odd ports only (even ports select the ULA as well: two devices)
+// @bound one port write + one port read
+// @stub ZXAyChip::select_reg / write / read -> call recorders (the chip glue is c18_ay_chip_readback); libm::sqrt -> identity; ZXMixer::process, ZXMixer::new_frame, ZXScreen::process_clocks -> no-op
+// @replay solver-only
+#[kani::proof]
+#[kani::unwind(12)]
+#[kani::stub(libm::sqrt, sqrt_identity)]
+#[kani::stub(ZXAyChip::select_reg, rec_select)]
+#[kani::stub(ZXAyChip::write, rec_write)]
+#[kani::stub(ZXAyChip::read, rec_read)]
+#[kani::stub(crate::zx::sound::mixer::ZXMixer::process, mh::noop_process)]
+#[kani::stub(crate::zx::sound::mixer::ZXMixer::new_frame, mh::noop_new_frame)]
+#[kani::stub(crate::zx::video::screen::ZXScreen::process_clocks, ch::noop_screen_clocks)]
+fn c07_ay_port_decode() {
+    if kani::any() {
+        ay_decode_case(crate::zx::machine::ZXMachine::Sinclair48K);
+    } else {
+        ay_decode_case(crate::zx::machine::ZXMachine::Sinclair128K);
+    }
+}
+
+fn ay_decode_case(m: crate::zx::machine::ZXMachine) {
+    let mut c = ch::mk_controller(m, FbCtx { wx: 0, wy: 0 }, false, false);
+    c.frame_clocks = 1000;
+    unsafe {
+        CHIP_NCALLS = 0;
+        CHIP_READ_ANSWER = kani::any();
+    }
+    let port: u16 = kani::any();
+    kani::assume(port & 1 == 1);
+    let data: u8 = kani::any();
+    let is_sel = port & 0xC002 == 0xC000;
+    let is_data = port & 0xC002 == 0x8000;
+    c.write_io(port, data);
+    unsafe {
+        if is_sel {
+            kani::assert(CHIP_NCALLS == 1 && CHIP_CALLS[0] == (1, data), "c07.ay.select_port_reaches_register_select");
+        } else if is_data {
+            kani::assert(CHIP_NCALLS == 1 && CHIP_CALLS[0] == (2, data), "c07.ay.data_port_reaches_data_write");
+        } else {
+            kani::assert(CHIP_NCALLS == 0, "c07.ay.other_ports_do_not_reach_the_chip");
+        }
+        CHIP_NCALLS = 0;
+    }
+    if is_sel || is_data {
+        kani::assert(u8::from(c.border_color) == 0, "c07.ay.border_untouched");
+        kani::assert(c.read_7ffd() == 0, "c07.ay.latch_untouched");
+    }
+    let rport: u16 = kani::any();
+    kani::assume(rport & 1 == 1);
+    let got = c.read_io(rport);
+    unsafe {
+        if rport & 0xC002 == 0xC000 {
+            kani::assert(CHIP_NCALLS == 1 && CHIP_CALLS[0].0 == 3 && got == CHIP_READ_ANSWER, "c07.ay.readback_port_returns_chip_answer");
+        } else {
+            kani::assert(CHIP_NCALLS == 0, "c07.ay.other_reads_do_not_reach_the_chip");
+        }
+    }
+    kani::cover!(is_sel && port != 0xFFFD, "select through a partial-decode alias");
+    kani::cover!(is_data && port != 0xBFFD, "data write through a partial-decode alias");
+    kani::cover!(!is_sel && !is_data && port & 0x8000 != 0, "A1 set: not an AY port");
 }
